@@ -12,7 +12,9 @@
 (* A STOPGAP row is a record over the 16 STOPGAP columns.  The renaming    *)
 (* is the one the property documents.                                      *)
 (*                                                                         *)
-(* Actions: Export(reset)  in-memory conversion of the list                *)
+(* Actions: EditLoaded / Reexport  a list created from STOPGAP form is     *)
+(*          edited and the OBJECT itself is converted / written again      *)
+(*          Export(reset)  in-memory conversion of the list                *)
 (*          Import         in-memory conversion of a STOPGAP table         *)
 (*          Write(update, reset)  the list as written to a .star file      *)
 (*          Load           the file loaded back                            *)
@@ -91,19 +93,35 @@ Write(update, reset) ==
 
 Load == pc = "written" /\ Step([name |-> "load"], rows, sg, FromSg(sg), "loaded")
 
+\* A list created from STOPGAP form (file or STOPGAP-layout table) is an ordinary particle list: it can be edited with
+\* any list method.  kind "update" = update_coordinates; "setclass" = every particle is given the class value that the
+\* object number of particle 1 names (a re-classification).
+EditP(p, kind, ps) == IF kind = "update" THEN UpdateP(p) ELSE [p EXCEPT !.class = ps[1].object_id]
+EditLoaded(kind) ==
+    /\ pc \in {"imported", "loaded"}
+    /\ Step([name |-> "edit", kind |-> kind, from |-> pc], rows, sg, [i \in 1..Len(back) |-> EditP(back[i], kind, back)], "edited")
+
+\* the edited OBJECT itself is handed on (stopgap2emmotl(obj), StopgapMotl(obj).write_out): it is the edited list that is
+\* converted, not the table it was once created from
+Reexport(reset) ==
+    /\ pc = "edited"
+    /\ Step([name |-> "reexport", reset |-> reset, kind |-> op.kind, from |-> op.from], back, ToSg(back, reset), back, "reexported")
+
 Init == rows \in InitLists /\ sg = <<>> /\ back = <<>> /\ pc = "list" /\ op = [name |-> "init"] /\ cid = 0
 
 Next == \/ \E reset \in BOOLEAN : Export(reset)
         \/ Import
         \/ \E update, reset \in BOOLEAN : Write(update, reset)
         \/ Load
+        \/ \E kind \in {"update", "setclass"} : EditLoaded(kind)
+        \/ \E reset \in BOOLEAN : Reexport(reset)
 
 Spec == Init /\ [][Next]_vars
 
 -----------------------------------------------------------------------------
 \* Property clauses.  They are stated field by field, in the property's words, not through Renaming.
 
-HasSg == pc \in {"exported", "imported", "written", "loaded"}
+HasSg == pc \in {"exported", "imported", "written", "loaded", "reexported"}
 
 C04_Renaming ==
     HasSg => /\ Len(sg) = Len(rows)
@@ -119,7 +137,7 @@ C04_Halfset ==
     HasSg => \A i \in 1..Len(sg) : sg[i].halfset = (IF rows[i].subtomo_id % 2 = 0 THEN "A" ELSE "B")
 
 C04_MotlIdx ==
-    [][op'.name \in {"export", "write"} =>
+    [][op'.name \in {"export", "write", "reexport"} =>
           \A i \in 1..Len(sg') : sg'[i].motl_idx = (IF op'.reset THEN i ELSE rows'[i].subtomo_id)]_vars
 
 \* conversion back (in memory or through the file) returns the 14 fields, in order
@@ -141,6 +159,12 @@ C04_UpdateCoord ==
                                 /\ 2 * Abs(rows'[i].shift_z) <= U
                /\ ~op'.update => rows'[i] = rows[i]]_vars
 
+\* an edit made after loading survives when the object itself is converted again
+C04_EditSurvives ==
+    [][op'.name = "reexport" =>
+          /\ Len(rows') = Len(back) /\ Len(sg') = Len(back)
+          /\ \A i \in 1..Len(back) : \A f \in MotlFields : rows'[i][f] = back[i][f] /\ sg'[i][Renaming[f]] = back[i][f]]_vars
+
 C04_OrderKept == [][Len(rows') = Len(rows) /\ \A i \in 1..Len(rows) : rows'[i].subtomo_id = rows[i].subtomo_id]_vars
 
 -----------------------------------------------------------------------------
@@ -148,8 +172,8 @@ C04_OrderKept == [][Len(rows') = Len(rows) /\ \A i \in 1..Len(rows) : rows'[i].s
 EmitTR == \/ EmitMode # "tr"
           \/ PrintT(<<"TR", ToJson([cid |-> cid, pre |-> IF cid = 0 THEN rows ELSE <<>>, op |-> op',
                                     rows |-> IF op'.name = "write" THEN rows' ELSE <<>>,
-                                    sg |-> IF op'.name \in {"export", "write"} THEN sg' ELSE <<>>,
-                                    sgin |-> IF op'.name \in {"import", "load"} THEN sg ELSE <<>>,
+                                    sg |-> IF op'.name \in {"export", "write", "reexport"} THEN sg' ELSE <<>>,
+                                    sgin |-> IF op'.name \in {"import", "load", "edit", "reexport"} THEN sg ELSE <<>>,
                                     back |-> back',
                                     \* the converted list after update_coordinates (stopgap2emmotl(..., update_coordinates=True))
                                     backu |-> [i \in 1..Len(back') |-> UpdateP(back'[i])]])>>)
